@@ -146,6 +146,18 @@ def hash_role(irA, irB, construct):
     union-alias-inside-union   they differ only by a union nested in a union through a reference
     different-ir       anything else"""
     (sa, da), (sb, db) = irA, irB
+
+    def direct_nested(x):
+        if isinstance(x, list):
+            return any(direct_nested(y) for y in x)
+        if isinstance(x, dict):
+            if x.get('t') in ('anyof', 'allof') and any(isinstance(y, dict) and y.get('t') == x['t'] for y in x.get('xs', [])):
+                return True
+            return any(direct_nested(v) for v in x.values())
+        return False
+    if direct_nested([sa, list(da.values()), sb, list(db.values())]):
+        return 'union-nested-directly:' + construct      # the frontend left a union directly inside a union (no alias in between)
+
     def j(flatten, sort):
         return json.dumps(inline_refs(sa, da, flatten, sort), sort_keys=True), json.dumps(inline_refs(sb, db, flatten, sort), sort_keys=True)
     a, b = j(False, False)
